@@ -487,13 +487,19 @@ def defaults(ctx):
            'default set is not "explicit outputs, else fallback outputs"')
     for mname in ('add', 'remove'):
         a = F.fn(D + 'DefaultOutputs.' + mname)
-        ex = _attr_nodes(a, 'default_outputs')
-        fb = _attr_nodes(a, 'fallback_defaults')
+        ex, fb = [], []
+        for g, b in F.frames(a, 1):
+            if g.cls is not a.cls:
+                continue
+            ex += [(n, g, b) for n in _attr_nodes(g, 'default_outputs')]
+            fb += [(n, g, b) for n in _attr_nodes(g, 'fallback_defaults')]
 
-        def guarded(n, want):
-            return any(pos == want and param_of(F.atoms(t, f_, b_),
+        def guarded(ngb, want):
+            n, g, b = ngb
+            return any(pos == want and param_of(F.atoms(t, f_, b_ if f_ is
+                                                        not g else b),
                                                 'explicit')
-                       for t, pos, f_, b_ in F.guard_leaves(n, a))
+                       for t, pos, f_, b_ in F.guard_leaves(n, g, b))
         ok = bool(ex) and bool(fb) and all(guarded(n, True) for n in ex) \
             and all(guarded(n, False) for n in fb)
         ctx.ob(R, 'DefaultOutputs.{}|explicit-flag'.format(mname), ok,
